@@ -95,6 +95,8 @@ type Runner struct {
 	RejectedLeftPending   bool            // a rejected reconfiguration left undelivered changes behind
 	RemoveLiveLeftPending bool            // a remove-live step left undelivered changes behind (KF9)
 	RemovedLive           bool            // the last remove step removed a container that had not been stopped
+	RaceBadCfg            *Config         // race mode: configuration the policy rejects only after having started to apply it
+	RaceAllowed           IntSet          // race mode: union of the available CPUs of all configurations accepted so far
 	NoShadow              bool            // concurrent mode: the order in which replies reach the runtime is unknown, skip runtime-view clauses
 }
 
